@@ -48,6 +48,8 @@ type jNode struct {
 	Key           string   `json:"key"`
 	Ctx           string   `json:"ctx"`
 	Where         string   `json:"where"`
+	EndLine       int      `json:"end_line"`
+	Reach         bool     `json:"reach"` // reachable without the exempted entries
 	Assumes       []string `json:"assumes"`
 	StrictAssumes []string `json:"strict_assumes"`
 	Entries       []jEntry `json:"entries"`
@@ -206,7 +208,7 @@ func (a *analysis) render() *jOut {
 			jd.Notes = []string{}
 		}
 		for _, n := range d.order {
-			jn := jNode{Key: n.Key, Ctx: n.Ctx, Where: n.Where, Assumes: strs(n.Assumes), StrictAssumes: strs(n.StrictAssumes),
+			jn := jNode{Key: n.Key, Ctx: n.Ctx, Where: n.Where, EndLine: a.l.fset.Position(n.body.Rbrace).Line, Reach: n.reach, Assumes: strs(n.Assumes), StrictAssumes: strs(n.StrictAssumes),
 				Entries: []jEntry{}, Sites: []jSite{}, Calls: []jCall{}}
 			for i := range n.Entries {
 				e := &n.Entries[i]
